@@ -114,7 +114,7 @@ func TestC12BigGroups(t *testing.T) {
 	fw.Run(t, fw.Spec[detCase]{
 		ID: "C12", Name: "big_groups", Quick: 48, Thorough: 960,
 		Gen: genBigGroupCase, Check: checkCase,
-		Rule: "t1 with 1600..6400 rows whose column g has 1-3 values and h four (so one GROUP BY group, partition or the whole table holds 400 to 6400 values); 1-3 statements that aggregate per bucket: 2-5 aggregates over the whole table or GROUP BY g / h / id % 2 - SUM / AVG / STDEV[P] / VAR[P] / MEDIAN of f (decimal fractions 0.1, 0.2, 0.3, 0.7, 1.1, 2.5, 1000000.1, -0.3 whose float sum depends on the order of addition), of products and quotients with f, DISTINCT forms, LISTAGG / JSON_AGG, the user-defined aggregate usum -, 1-3 of those as analytic functions (OVER (), PARTITION BY g / h / id % 2) or an INSERT..SELECT of SUM(f) and AVG(f) per group into t3 with HAVING over the sum, followed by SELECT * and COMMIT; runs in-process with cpu in {1, 2, one of 3..12, 16} x r runs (quick 2, thorough 4); oracle and non-triviality as in_process; distinct by (statement kinds, size of t1)",
+		Rule:        "t1 with 1600..6400 rows whose column g has 1-3 values and h four (so one GROUP BY group, partition or the whole table holds 400 to 6400 values); 1-3 statements that aggregate per bucket: 2-5 aggregates over the whole table or GROUP BY g / h / id % 2 - SUM / AVG / STDEV[P] / VAR[P] / MEDIAN of f (decimal fractions 0.1, 0.2, 0.3, 0.7, 1.1, 2.5, 1000000.1, -0.3 whose float sum depends on the order of addition), of products and quotients with f, DISTINCT forms, LISTAGG / JSON_AGG, the user-defined aggregate usum -, 1-3 of those as analytic functions (OVER (), PARTITION BY g / h / id % 2) or an INSERT..SELECT of SUM(f) and AVG(f) per group into t3 with HAVING over the sum, followed by SELECT * and COMMIT; runs in-process with cpu in {1, 2, one of 3..12, 16} x r runs (quick 2, thorough 4); oracle and non-triviality as in_process; distinct by (statement kinds, size of t1)",
 		Assumptions: []string{"goroutine schedules are sampled", "cells are compared by text: a float sum that differs in its last digit is a different result"},
 	})
 }
